@@ -891,7 +891,7 @@ type budgetExceeded struct{}
 // InitAllow lists the non-go.sh packages whose init functions are interpreted.
 var InitAllow = map[string]bool{
 	"io": true, "bufio": true, "unicode/utf8": true, "strconv": true, "strings": true, "bytes": true,
-	"errors": false, "sort": true,
+	"errors": false, "sort": true, "math/bits": true, "slices": true, "cmp": true, "path": true, "maps": true,
 }
 
 func userPkg(p *ssa.Package) bool {
